@@ -63,6 +63,8 @@ func main() {
 			"non-trivial = history with >=1 slash, >=1 debonding completion, non-zero fees and >=3 epoch transitions",
 		Cases: func(r *evid.Run) []chainsim.Case {
 			cs := chainsim.StdCases(r.Seed, r.Pick(192, 2400), r.Pick(60, 120), []string{"hostile", "default", "hostile", "registry"})
+			// Key manager traffic (fees of key manager transactions, CHURP stake claims).
+			cs = chainsim.WithExtraCases(cs, r.Seed, r.Pick(12, 150), "keymanager")
 			for i := range cs {
 				if !r.Quick() || i%4 == 0 {
 					cs[i].Mode = "taps"
